@@ -289,7 +289,7 @@ func runC05(c *Ctx) error {
 		send(sendOp{API: "writev", Opcode: 1, Slices: [][]byte{[]byte("中")[:2], []byte("中")[2:]}}, "split-codepoint")
 		send(sendOp{API: "message", Opcode: 2, Slices: [][]byte{{0xff, 0xfe}}}, "binary-not-checked")
 		// streamed sends: reader chunkings
-		fileData := [][]int{{}, {0}, {1}, {5, 0, 7}, {131072}, {131072, 131072}, {131073}, {70000, 70000, 1}, {1, 1, 1, 1}, {300000}}
+		fileData := [][]int{{}, {0}, {1}, {0, 5}, {0, 0, 3}, {5, 0, 7}, {131072}, {131072, 131072}, {131073}, {70000, 70000, 1}, {1, 1, 1, 1}, {300000}}
 		for fi, chunks := range fileData {
 			for _, mode := range []string{"sep", "with"} {
 				if !c.quick() || (fi+si)%2 == 0 || mode == "sep" {
